@@ -635,7 +635,14 @@ func execAscon(p *Plan, run *core.Run) {
 				got = c.Seal(buf[:0], nonce, buf, ad)
 				run.Fault("aliasing:seal-in-place")
 			} else {
-				dst := append(make([]byte, 0, len(prefix)+len(pt)+16+3), prefix...)
+				// dst with a prefix and a spare capacity of 0, 1, one less than needed, exactly what is
+				// needed, or more (the append-style API has to grow the buffer in the first three cases)
+				need := len(pt) + 16
+				spare := []int{0, 1, need - 1, need, need + 3}[(call.Prefix+i)%5]
+				if spare < 0 {
+					spare = 0
+				}
+				dst := append(make([]byte, 0, len(prefix)+spare), prefix...)
 				out := c.Seal(dst, nonce, pt, ad)
 				if !bytes.Equal(out[:len(prefix)], prefix) {
 					run.Violate(comp, "seal-disturbs-dst-prefix", "call %d", i)
@@ -696,7 +703,12 @@ func execAscon(p *Plan, run *core.Run) {
 				got, err = cc.Open(ct[:0], nonce, ct, ad)
 				run.Fault("aliasing:open-in-place")
 			} else {
-				dst := append(make([]byte, 0, len(prefix)+len(ct)+3), prefix...)
+				need := len(ct) - 16
+				spare := []int{0, 1, need - 1, need, need + 3}[(call.Prefix+i)%5]
+				if spare < 0 {
+					spare = 0
+				}
+				dst := append(make([]byte, 0, len(prefix)+spare), prefix...)
 				got, err = cc.Open(dst, nonce, ct, ad)
 				if err == nil {
 					if !bytes.Equal(got[:len(prefix)], prefix) {
